@@ -2,11 +2,14 @@
 # usage: run.sh <property id> <quick|thorough>
 # Rebuilds the simulator against /repo's current working tree, then runs the check.
 # exit 0 held / 1 VIOLATION / 2 build, self-test, watchdog or vacuity trouble.
+# VERIF_DIR (default /verif) lets a snapshot of this directory run on its own
+# (vp run): binary, replays and evidence then stay inside the snapshot.
 export GOFLAGS=-mod=mod GOPROXY=off GOSUMDB=off GOTOOLCHAIN=local
-cd /verif/sim || exit 2
-mkdir -p /verif/bin /verif/evidence /verif/replays
-if ! go build -o /verif/bin/gotsim . ; then
+export VERIF_DIR="${VERIF_DIR:-/verif}"
+cd "$VERIF_DIR/sim" || exit 2
+mkdir -p "$VERIF_DIR/bin" "$VERIF_DIR/evidence" "$VERIF_DIR/replays"
+if ! go build -o "$VERIF_DIR/bin/gotsim" . ; then
   echo "build failed (not a verdict about the property)" >&2
   exit 2
 fi
-exec /verif/bin/gotsim check --property "$1" --tier "${2:-quick}"
+exec "$VERIF_DIR/bin/gotsim" check --property "$1" --tier "${2:-quick}"
